@@ -41,6 +41,9 @@ import (
 	"github.com/trustbloc/sidetree-go/pkg/util/pubkey"
 	"github.com/trustbloc/sidetree-go/pkg/vdr/sidetreelongform/dochandler"
 	"github.com/trustbloc/sidetree-go/pkg/vdr/sidetreelongform/dochandler/protocolversion/clientregistry"
+	protocolcfg "github.com/trustbloc/sidetree-go/pkg/vdr/sidetreelongform/dochandler/protocolversion/versions/v1_0/config"
+	"github.com/trustbloc/sidetree-go/pkg/versions/1_0/doccomposer"
+	"github.com/trustbloc/sidetree-go/pkg/versions/1_0/operationapplier"
 	vcommon "github.com/trustbloc/sidetree-go/pkg/vdr/sidetreelongform/dochandler/protocolversion/versions/common"
 	"github.com/trustbloc/sidetree-go/pkg/vdr/sidetreelongform/sidetree/doc"
 	"github.com/trustbloc/sidetree-go/pkg/vdr/sidetreelongform/sidetree/option/create"
@@ -97,8 +100,10 @@ func lcNewKey(r *rand.Rand, kind string) *lcSigner {
 	}
 }
 
-func lcCommit(s *lcSigner) string {
-	c, err := commitment.GetCommitment(s.pub, 18)
+func lcCommit(s *lcSigner) string { return lcCommitWith(s, 18) }
+
+func lcCommitWith(s *lcSigner, code uint) string {
+	c, err := commitment.GetCommitment(s.pub, code)
 	if err != nil {
 		panic(err)
 	}
@@ -120,8 +125,10 @@ func lcSvc(id string) *docdid.Service {
 
 // the node: parses and applies what the client sends
 type lcNode struct {
-	pv     protocol.Version
-	parser *operationparser.Parser
+	pv      protocol.Version
+	opp     protocol.OperationParser
+	applier protocol.OperationApplier
+	parser  *operationparser.Parser
 	dh     *dochandler.DocumentHandler
 	state  map[string]*protocol.ResolutionModel
 	time   uint64
@@ -131,7 +138,7 @@ type lcNode struct {
 
 func (n *lcNode) send(req []byte, _ GetEndpointsFunc) ([]byte, error) {
 	n.sent++
-	op, err := n.pv.OperationParser().Parse(lcNS, req)
+	op, err := n.opp.Parse(lcNS, req)
 	if err != nil {
 		n.fail = fmt.Sprintf("request refused by the parser: %v", err)
 		return nil, fmt.Errorf("parser: %w", err)
@@ -141,10 +148,31 @@ func (n *lcNode) send(req []byte, _ GetEndpointsFunc) ([]byte, error) {
 		if rm == nil {
 			rm = &protocol.ResolutionModel{}
 		}
-		return n.pv.OperationApplier().Apply(&operation.AnchoredOperation{Type: op.Type, UniqueSuffix: op.UniqueSuffix, OperationRequest: reqBytes,
+		return n.applier.Apply(&operation.AnchoredOperation{Type: op.Type, UniqueSuffix: op.UniqueSuffix, OperationRequest: reqBytes,
 			TransactionTime: n.time, TransactionNumber: n.time, ProtocolVersion: n.pv.Protocol().GenesisTime, AnchorOrigin: op.AnchorOrigin}, rm)
 	}
 	before := n.state[op.UniqueSuffix]
+	if op.Type != operation.TypeCreate {
+		// commit-reveal: the request must reveal the key committed to by the previous operation
+		if before == nil {
+			n.fail = fmt.Sprintf("%s request for an unknown suffix", op.Type)
+			return nil, fmt.Errorf("unknown suffix")
+		}
+		rv, err := n.opp.GetRevealValue(req)
+		if err != nil {
+			n.fail = fmt.Sprintf("reveal value of the %s request: %v", op.Type, err)
+			return nil, err
+		}
+		c, err := commitment.GetCommitmentFromRevealValue(rv)
+		want := before.RecoveryCommitment
+		if op.Type == operation.TypeUpdate {
+			want = before.UpdateCommitment
+		}
+		if err != nil || c != want {
+			n.fail = fmt.Sprintf("%s request does not reveal the committed key: commitment of its reveal value differs from the commitment on record (err %v)", op.Type, err)
+			return nil, fmt.Errorf("commit-reveal")
+		}
+	}
 	rm, err := apply(req, before)
 	if err != nil {
 		n.fail = fmt.Sprintf("%s request refused by the applier: %v", op.Type, err)
@@ -260,7 +288,11 @@ func TestVerifBoundedLifecycle(t *testing.T) {
 	}
 	cases := 0
 	for run := 0; run < runs; run++ {
-		node := &lcNode{pv: pv, parser: operationparser.New(pv.Protocol()), dh: dh, state: map[string]*protocol.ResolutionModel{}}
+		// the node accepts sha2-256 and sha2-512 (the matching protocol for requests that move to sha2-512)
+		np := protocolcfg.GetProtocolConfig()
+		np.MultihashAlgorithms = []uint{18, 19}
+		nparser := operationparser.New(np)
+		node := &lcNode{pv: pv, opp: nparser, applier: operationapplier.New(np, nparser, doccomposer.New()), parser: nparser, dh: dh, state: map[string]*protocol.ResolutionModel{}}
 		c := New(WithSidetreeOperationRequestFnc(node.send))
 		kind := func() string { return lcKinds[r.Intn(len(lcKinds))] }
 		if run < len(lcKinds) {
@@ -314,9 +346,10 @@ func TestVerifBoundedLifecycle(t *testing.T) {
 		if !lcCheck("update1", node, suffix, keys, svcs, aka, lcCommit(u1), lcCommit(r0), false) {
 			return
 		}
-		// ---- update 2: replace k3 (same id), remove k1, add a service, remove a URI, unknown ids ignored
+		// ---- update 2: rotate k3 (removed and added again in one request: removals come first, so it
+		// stays), remove k1, add a service, remove a URI, unknown ids ignored
 		err = c.UpdateDID(did, update.WithSigner(u1), update.WithNextUpdatePublicKey(u2.key), update.WithOperationCommitment(lcCommit(u1)),
-			update.WithAddPublicKey(lcDocKey(r, "k3")), update.WithRemovePublicKey("k1"), update.WithRemovePublicKey("nosuch"), update.WithAddService(lcSvc("s3")),
+			update.WithAddPublicKey(lcDocKey(r, "k3")), update.WithRemovePublicKey("k3"), update.WithRemovePublicKey("k1"), update.WithRemovePublicKey("nosuch"), update.WithAddService(lcSvc("s3")),
 			update.WithRemoveAlsoKnownAs("https://second.example/"))
 		cases++
 		if err != nil {
@@ -365,14 +398,19 @@ func TestVerifBoundedLifecycle(t *testing.T) {
 			return
 		}
 		// ---- update after recovery
-		err = c.UpdateDID(did, update.WithSigner(u3), update.WithNextUpdatePublicKey(u4.key), update.WithOperationCommitment(lcCommit(u3)), update.WithAddService(lcSvc("s10")))
+		u4code := uint(18)
+		if run%2 == 0 {
+			u4code = 19 // next commitment with sha2-512; the reveal value still uses the code of the commitment revealed
+		}
+		err = c.UpdateDID(did, update.WithSigner(u3), update.WithNextUpdatePublicKey(u4.key), update.WithOperationCommitment(lcCommit(u3)), update.WithAddService(lcSvc("s10")),
+			update.WithMultiHashAlgorithm(u4code))
 		cases++
 		if err != nil {
 			lcFail("update3", "run %d: %v (%s)", run, err, node.fail)
 			return
 		}
 		svcs = append(svcs, "s10")
-		if !lcCheck("update3", node, suffix, keys, svcs, aka, lcCommit(u4), lcCommit(r1), false) {
+		if !lcCheck("update3", node, suffix, keys, svcs, aka, lcCommitWith(u4, u4code), lcCommit(r1), false) {
 			return
 		}
 		// ---- deactivate
